@@ -82,7 +82,12 @@ def make_module(r):
         imports = imports + ["from collections import OrderedDict"]
     head += "from typing import List, Literal\n"
     imports = imports + ["from typing import List, Literal"]
-    mapping = "MAPPING = OrderedDict((%s,))\n" % ", ".join("(%r, %s)" % (n_, n_) for n_, _, _ in entries)
+    pairs = "(%s,)" % ", ".join("(%r, %s)" % (n_, n_) for n_, _, _ in entries)
+    # the mapping as projects keep it: an OrderedDict, a plain dict, a sequence of pairs, a read-only view, a UserDict,
+    # a ChainMap (every one of them ordered; named without an import line of its own)
+    form = r.choice(["OrderedDict(%s)"] * 5 + ["dict(%s)", "%s", '__import__("types").MappingProxyType(OrderedDict(%s))',
+                                                '__import__("collections").UserDict(OrderedDict(%s))', '__import__("collections").ChainMap(OrderedDict(%s))'])  # fmt: skip
+    mapping = "MAPPING = %s\n" % (form % pairs)
     return head + "\n\n" + "\n\n".join(parts) + "\n\n" + mapping, entries, imports, annotated
 
 
